@@ -31,7 +31,7 @@ for p in props:
     })
 m = {
     "version": 1,
-    "setup_cmd": "cd lean && lake build CxxModel driver",
+    "setup_cmd": "cd lean && lake build CxxModel CxxModel.Props.All driver",
     "hooks": {
         "guard": "CXXHEADERPARSER_VERIF",
         "enable": "no source hooks are needed: the harness imports the working tree (PYTHONPATH=/repo) and calls private methods directly",
